@@ -54,7 +54,7 @@ func genTreeCaseWith(t *rapid.T, mayBeUnsafe bool) *Case {
 func voidEndTagsPaired(toks []tok) (string, bool) {
 	for i, t := range toks {
 		if t.Type == html.EndTagToken && voidEls[t.Name] {
-			if i == 0 || toks[i-1].Type != html.StartTagToken || toks[i-1].Name != t.Name {
+			if i == 0 || (toks[i-1].Type != html.StartTagToken && toks[i-1].Type != html.SelfClosingTagToken) || toks[i-1].Name != t.Name {
 				return t.Name, false
 			}
 		}
